@@ -10,7 +10,7 @@ from ..ops import World
 
 class C12(Machine):
     ID = "C12"
-    FAMILY_WEIGHTS = {"sparse": 3, "dense": 3, "canal": 1, "modular": 2, "maa": 3, "cascade": 1, "maa_cascade": 4, "degenerate": 1, "maa_deadpad": 1}
+    FAMILY_WEIGHTS = {"sparse": 3, "dense": 3, "canal": 1, "modular": 2, "maa": 3, "cascade": 1, "maa_cascade": 4, "degenerate": 1, "maa_deadpad": 1, "inputs_mix": 2}
     NMAX = {"quick": 6, "thorough": 8}
 
     def gen_params(self, sc, rng):
@@ -18,6 +18,15 @@ class C12(Machine):
         # interleaved histories: the diagram keeps growing between set queries, so that sets
         # cached on a stub meet a later expansion (any strategy, incl. the source shortcuts)
         sc["params"]["p_grow"] = rng.choice([0.0, 0.0, 0.25, 0.4])
+        if rng.random() < 0.15:
+            # skip-fallback histories: partial expansion, seeds on some expanded nodes (cached
+            # empty results are what skip nodes prune by), skipping, then the default method
+            # and the forced symbolic fallback on the skip nodes and their neighbours
+            from ..machine import sub_rng
+            from ..netgen import gen_network
+
+            sc["params"].update({"mode": "skip_fallback", "prefix": 0, "sf_expand": rng.randint(0, 3), "sf_how": rng.choice(["skip_remaining", "skip_remaining", "skip_each"]), "queries": rng.randint(4, 8), "p_twin": 0.6, "p_grow": 0.0})
+            sc["net"] = gen_network(sub_rng(sc["run_seed"], "net-skip-fallback"), {"maa_cascade": 4, "maa": 2, "modular": 1}, nmax=self.NMAX.get(sc["tier"], 6), fmts=self.FMTS)
         if rng.random() < 0.5:
             sc["walk_seed"] = rng.randrange(1 << 30)
         if rng.random() < 0.25:
@@ -41,6 +50,23 @@ class C12(Machine):
         if st["n_prefix"] < p["prefix"]:
             st["n_prefix"] += 1
             return structural_op(world, rng)
+        if p.get("mode") == "skip_fallback" and not st.get("sf_done"):
+            k = st.get("sf_step", 0)
+            st["sf_step"] = k + 1
+            if k == 0:
+                return {"op": "expand_one", "node": world.space_of(0)}
+            stubs = world.stubs()
+            if k <= p["sf_expand"] and stubs:
+                return {"op": "expand_one", "node": world.space_of(rng.choice(stubs))}
+            if k <= p["sf_expand"] + 2:
+                exp = [i for i in world.node_ids() if world.sd.node_data(i)["expanded"] and world.sd.node_data(i)["attractor_seeds"] is None]
+                if exp and rng.random() < 0.7:
+                    return {"op": "seeds", "node": world.space_of(rng.choice(exp)), "compute": True, "fallback": False}
+            if p["sf_how"] == "skip_each" and stubs and k <= p["sf_expand"] + 6:
+                return {"op": "skip_to_minimal", "node": world.space_of(rng.choice(stubs))}
+            st["sf_done"] = True
+            if stubs:
+                return {"op": "skip_remaining"}
         if st["n_q"] >= p["queries"]:
             return None
         st["n_q"] += 1
@@ -58,6 +84,10 @@ class C12(Machine):
                 return cache_op(world, rng)
             return {"op": "pickle"}
         nid = pick_node(world, rng)
+        if p.get("mode") == "skip_fallback" and rng.random() < 0.7:
+            sk = [i for i in world.node_ids() if world.sd.node_data(i)["skipped"] and world.sd.node_data(i)["attractor_seeds"] is None]
+            if sk:
+                nid = rng.choice(sk)
         sp = world.space_of(nid)
         d = world.sd.node_data(nid)
         if d["attractor_seeds"] is None and rng.random() < p["p_twin"]:
